@@ -4,8 +4,9 @@ Decided: what the convergent key is a function of (provenance of every input of
 the hasher, all data chunks, nothing else), where the storage index and the
 read-cap key come from, which branch picks a random key, and the literal-file
 routing (threshold, comparison, data embedded, no server contact), the position of the
-file handle when the data reads start, and the independence of the hashes behind
-the cap from the share placement (DESIGN.md section 5, C05)."""
+file handle when the data reads start, the independence of the hashes behind
+the cap from the share placement, and the way the configured defaults reach the
+attributes the key derivation reads (DESIGN.md section 5, C05)."""
 from sa.h import *
 
 EXPLANATION = (
@@ -37,7 +38,12 @@ EXPLANATION = (
     "entries share_root_hash / crypttext_root_hash / crypttext_hash are stored on every path of their functions from "
     "HashTree(self.share_root_hashes) / HashTree(self._crypttext_hashes) / self._crypttext_hasher.digest(), and none "
     "of the loop iterables, stored values, accumulator sizes or codec.encode arguments depends on self.landlords / "
-    "self.servermap: the cap does not depend on which shares this upload pushes. "
+    "self.servermap: the cap does not depend on which shares this upload pushes; "
+    "(9) the attribute get_all_encoding_parameters falls back on for an unset k / n / max segment size is stored by "
+    "set_default_encoding_parameters (of every uploadable of the FileHandle family) from default_params['k' / 'n' / "
+    "'max_segment_size'], with attribute names computed in loops over constant sequences / setattr / __dict__ evaluated, "
+    "on a path that is taken for the keys of client.DEFAULT_ENCODING_PARAMETERS, and Uploader.upload hands over what "
+    "get_encoding_parameters() returned (attribute names that cannot be evaluated statically give an analysis error). "
     "Undecided: SHA-256d / AES-CTR behave as functions of their inputs (library), netstring injectivity (unit-tested); "
     "the value of the segment size (min with the file size, rounding to a multiple of k) beyond its dependency on "
     "max_segment_size; that the handle is at offset 0 when the key hashing starts if the first seek(0) is removed "
@@ -1315,6 +1321,109 @@ def run(ctx: Context):
                 r.require(not bad, f, f.loc(c), "codec.encode(.. %s ..) depends on %s: shares without a bucket writer are "
                           "not produced and not hashed" % (src(f, a), ", ".join(bad)))
 
+    # -- 9. the configured defaults reach the attributes the key derivation falls back on -----------
+    with ctx.rule("C05.9", "R7/E5", "set_default_encoding_parameters stores default_params['k' / 'n' / 'max_segment_size'] "
+                  "in exactly the attributes get_all_encoding_parameters falls back on for elements 0 / 2 / 3 of the "
+                  "parameter tuple, on the path taken for the parameter dictionary the client supplies", expected=8) as r:
+        bu = idx.func(UP + "BaseUploadable.get_all_encoding_parameters")
+        inner = bu.nested.get("_got_size")
+        if inner is None:
+            raise AnchorVanished("BaseUploadable.get_all_encoding_parameters._got_size")
+        odefs = def_exprs(bu)
+        used_inside = {x.id for x in ast.walk(inner.node) if isinstance(x, ast.Name) and isinstance(x.ctx, ast.Load)}
+        # (a) the reading side: which attribute stands in for an unset k / n / max segment size
+        fallback = {}
+        for setting, key in (("encoding_param_k", "k"), ("encoding_param_n", "n"), ("max_segment_size", "max_segment_size")):
+            opath = "self." + setting
+            cands = [(var, exprs[0]) for var, exprs in sorted(odefs.items()) if var in used_inside and len(exprs) == 1
+                     and opath in depends_on(bu, exprs[0], defs=odefs)]
+            if len(cands) != 1:
+                raise AnchorVanished("the local of get_all_encoding_parameters that combines %s with its default" % opath)
+            var, e = cands[0]
+            ch = _choose(e, opath, False, odefs)
+            if ch is not None and ch[0].startswith("self.") and ch[0] != opath:
+                attr = ch[0]
+            else:
+                others = sorted(l for l in depends_on(bu, e, defs=odefs) if l.startswith("self.") and l != opath)
+                if not others:
+                    r.violation(bu, bu.loc(e), "%s = %s: with %s unset the value does not come from an attribute of the "
+                                "uploadable, so the default set_default_encoding_parameters receives for %r is ignored and "
+                                "uploads configured with different values get the same key / storage index" % (
+                                    var, src(bu, e), opath, key))
+                    continue
+                if len(others) != 1:
+                    raise AnalysisError("cannot tell which attribute %s = %s falls back on when %s is unset" % (
+                        var, src(bu, e), opath))
+                attr = others[0]
+            fallback[key] = attr[len("self."):]
+            r.site(bu, e, "%s falls back on %s" % (setting, attr))
+        # (b) the keys the client supplies
+        ccls = idx.cls("client:_Client")
+        dlit = ccls.attrs.get("DEFAULT_ENCODING_PARAMETERS", [])
+        supplied = dict_literal_keys(dlit[0]) if len(dlit) == 1 else None
+        if not supplied or not all(isinstance(x, str) for x in supplied):
+            raise AnchorVanished("client._Client.DEFAULT_ENCODING_PARAMETERS dictionary literal")
+        r.site("client DEFAULT_ENCODING_PARAMETERS keys: %s" % ", ".join(supplied))
+        for key in fallback:
+            r.require(key in supplied, ccls.qual, "src/allmydata/client.py", "the client's default encoding parameters have "
+                      "no %r entry (keys: %s): that default never reaches the uploadable" % (key, ", ".join(supplied)))
+        # (c) the storing side, for every uploadable of the FileHandle family
+        setters = {}
+        for ci in [idx.cls(FH)] + list(idx.subclasses(idx.cls(FH))):
+            m = ci.lookup("set_default_encoding_parameters")
+            if m is None:
+                raise AnchorVanished("%s.set_default_encoding_parameters" % ci.qual)
+            setters[m.qual] = m
+            g = ci.lookup("get_all_encoding_parameters")
+            if g is None or g.qual != bu.qual:
+                raise AnalysisError("%s overrides get_all_encoding_parameters: its defaults are not covered" % ci.qual)
+        for sd in setters.values():
+            sps = first_positional_params(sd)
+            if not sps:
+                raise AnchorVanished("%s(default_params)" % short(sd))
+            dpar = sps[0]
+            recs, opaque = _self_attr_stores(sd, folder, dpar, set(supplied))
+            r.count(len(recs))
+            for key, attr in sorted(fallback.items()):
+                mine = [x for x in recs if x[0] == attr]
+                if not mine:
+                    if opaque:
+                        raise AnalysisError("%s stores attributes under names that cannot be evaluated (%s): cannot decide "
+                                            "whether self.%s receives %s[%r]" % (short(sd), src(sd, opaque[0]), attr, dpar, key))
+                    near = sorted({x[0] for x in recs if key in x[2]})
+                    r.violation(sd, sd.loc(), "%s never stores self.%s, the attribute get_all_encoding_parameters falls back "
+                                "on when %s is not set explicitly%s: the configured %s never reaches the key derivation and "
+                                "the encoding, uploads that differ in it get the same storage index" % (
+                                    short(sd), attr, "encoding_param_" + key if key != "max_segment_size" else key,
+                                    " (%s[%r] goes to self.%s, which nothing reads)" % (dpar, key, ", self.".join(near)) if near else "",
+                                    key))
+                    continue
+                r.site(sd, mine[0][1], "self.%s <- %s[%r]" % (attr, dpar, key))
+                live = [x for x in mine if x[3]]
+                if not r.require(bool(live), sd, sd.loc(mine[0][1]), "the store of self.%s in %s is skipped for the parameter "
+                                 "dictionary the client supplies (keys %s): the configured %s is ignored" % (
+                                     attr, short(sd), ", ".join(supplied), key)):
+                    continue
+                for (_, node, keys, _) in live:
+                    if None in keys:
+                        raise AnalysisError("cannot evaluate which entry of %s is stored in self.%s (%s)" % (
+                            dpar, attr, src(sd, node)))
+                    r.require(keys == {key}, sd, sd.loc(node), "self.%s, the default of %s that get_all_encoding_parameters "
+                              "uses, is set from %s, expected %s[%r]" % (
+                                  attr, key, ("%s[%s]" % (dpar, " / ".join(repr(k) for k in sorted(keys)))) if keys
+                                  else "a value that is not an entry of %s" % dpar, dpar, key))
+        # (d) the dictionary handed over is the client's
+        up = idx.func(UP + "Uploader.upload")
+        css = [(f, c) for f in [up] + _descendants(up) for c in calls_in_func(f, "set_default_encoding_parameters")]
+        if not css:
+            raise AnchorVanished("set_default_encoding_parameters call in Uploader.upload")
+        for (f, c) in css:
+            r.site(f, c, "defaults handed to the uploadable")
+            a = arg(c, 0, "default_params")
+            fed = [cc for cc in calls_feeding(f, a)] if a is not None else []
+            r.require(any(call_tail(cc) == "get_encoding_parameters" for cc in fed), f, f.loc(c),
+                      "the uploadable's defaults are %s, not derived from the client's get_encoding_parameters()" % src(f, a))
+
 
 def _choose(e, opath, is_set, defs, depth=0):
     """Which leaf does expression `e` evaluate to when the attribute `opath` is truthy (is_set) / None (not
@@ -1365,6 +1474,254 @@ def _truth(t, opath, is_set, defs, depth):
         return is_none == isinstance(t.ops[0], ast.Is)
     v = _choose(t, opath, is_set, defs, depth + 1)
     return None if v is None else v[1]
+
+
+class _Unknown(Exception):
+    pass
+
+
+def _cev(e, env, folder, fn):
+    """Constant value of expression `e` with the loop variables bound as in env (strings, tuples, dicts)."""
+    if isinstance(e, ast.Constant):
+        return e.value
+    if isinstance(e, ast.Name):
+        if e.id in env:
+            if env[e.id] is _Unknown:
+                raise _Unknown(e.id)
+            return env[e.id]
+    elif isinstance(e, (ast.Tuple, ast.List)):
+        return tuple(_cev(x, env, folder, fn) for x in e.elts)
+    elif isinstance(e, ast.Dict) and all(k is not None for k in e.keys):
+        return {_cev(k, env, folder, fn): _cev(v, env, folder, fn) for k, v in zip(e.keys, e.values)}
+    elif isinstance(e, ast.BinOp) and isinstance(e.op, (ast.Add, ast.Mod)):
+        l, rr = _cev(e.left, env, folder, fn), _cev(e.right, env, folder, fn)
+        try:
+            return l + rr if isinstance(e.op, ast.Add) else l % rr
+        except Exception:
+            raise _Unknown("operator")
+    elif isinstance(e, ast.JoinedStr):
+        out = ""
+        for v in e.values:
+            if isinstance(v, ast.FormattedValue):
+                if v.conversion != -1 or v.format_spec is not None:
+                    raise _Unknown("format")
+                out += str(_cev(v.value, env, folder, fn))
+            else:
+                out += str(_cev(v, env, folder, fn))
+        return out
+    elif isinstance(e, ast.Subscript):
+        c, k = _cev(e.value, env, folder, fn), _cev(e.slice, env, folder, fn)
+        try:
+            return c[k]
+        except Exception:
+            raise _Unknown("subscript")
+    elif isinstance(e, ast.Call) and isinstance(e.func, ast.Attribute) and not e.keywords:
+        recv = _cev(e.func.value, env, folder, fn)
+        args = [_cev(a, env, folder, fn) for a in e.args]
+        if isinstance(recv, dict) and e.func.attr in ("items", "keys", "values") and not args:
+            return tuple(getattr(recv, e.func.attr)())
+        if isinstance(recv, str) and e.func.attr in ("format", "join", "lower", "upper"):
+            try:
+                return getattr(recv, e.func.attr)(*args)
+            except Exception:
+                raise _Unknown("str method")
+        raise _Unknown("call")
+    elif isinstance(e, ast.Call) and isinstance(e.func, ast.Name) and e.func.id in ("sorted", "list", "tuple", "reversed") \
+            and len(e.args) == 1 and not e.keywords and e.func.id not in env:
+        v = _cev(e.args[0], env, folder, fn)
+        try:
+            return tuple({"sorted": sorted, "list": list, "tuple": tuple, "reversed": reversed}[e.func.id](v))
+        except Exception:
+            raise _Unknown("builtin")
+    try:
+        return folder.fold(e, fn.module, fn.cls)
+    except NotConstant:
+        raise _Unknown("not constant")
+
+
+def _bind(target, value, env):
+    if isinstance(target, ast.Name):
+        env[target.id] = value
+    elif isinstance(target, (ast.Tuple, ast.List)):
+        if value is not _Unknown and isinstance(value, (tuple, list)) and len(value) == len(target.elts):
+            for t, v in zip(target.elts, value):
+                _bind(t, v, env)
+        else:
+            for t in target.elts:
+                _bind(t, _Unknown, env)
+
+
+def _tv(t, env, folder, fn, dpar, supplied):
+    """Three-valued truth of a test when `dpar` is a dictionary with exactly the keys `supplied`:
+    True / False / None (undetermined)."""
+    if isinstance(t, ast.UnaryOp) and isinstance(t.op, ast.Not):
+        v = _tv(t.operand, env, folder, fn, dpar, supplied)
+        return None if v is None else not v
+    if isinstance(t, ast.BoolOp):
+        vs = [_tv(v, env, folder, fn, dpar, supplied) for v in t.values]
+        if isinstance(t.op, ast.And):
+            return False if False in vs else (None if None in vs else True)
+        return True if True in vs else (None if None in vs else False)
+    if isinstance(t, ast.Compare) and len(t.ops) == 1 and isinstance(t.ops[0], (ast.In, ast.NotIn)):
+        c = t.comparators[0]
+        if isinstance(c, ast.Call) and isinstance(c.func, ast.Attribute) and c.func.attr == "keys" and not c.args:
+            c = c.func.value
+        if isinstance(c, ast.Name) and c.id == dpar:
+            try:
+                k = _cev(t.left, env, folder, fn)
+            except _Unknown:
+                return None
+            return (k in supplied) == isinstance(t.ops[0], ast.In)
+        return None
+    if isinstance(t, ast.Constant):
+        return bool(t.value)
+    return None
+
+
+def _self_attr_stores(fn, folder, dpar, supplied):
+    """Every store to an attribute of self that `fn` performs itself - self.X = V, setattr(self, NAME, V),
+    self.__setattr__(NAME, V), object.__setattr__(self, NAME, V), self.__dict__[NAME] = V - with for loops over
+    constant sequences unrolled so that computed names are evaluated.
+    -> ([(attribute, node, keys of `dpar` the value is taken from (None = not evaluable), reached when `dpar` has
+    exactly the keys `supplied`)], [stores whose attribute name cannot be evaluated])"""
+    selfname = fn.params[0] if fn.params else "self"
+    defs = def_exprs(fn)
+    recs, opaque, handled = [], [], set()
+
+    def keys_of(v, env, depth=0, seen=None):
+        seen = set() if seen is None else seen
+        out = set()
+        skip = set()
+        for x in own_nodes(v, into_lambda=True):
+            if id(x) in skip:
+                continue
+            if isinstance(x, ast.Subscript) and isinstance(x.value, ast.Name) and x.value.id == dpar:
+                skip.add(id(x.value))
+                try:
+                    out.add(_cev(x.slice, env, folder, fn))
+                except _Unknown:
+                    out.add(None)
+            elif isinstance(x, ast.Call) and isinstance(x.func, ast.Attribute) and isinstance(x.func.value, ast.Name) \
+                    and x.func.value.id == dpar and x.func.attr in ("get", "pop", "setdefault", "__getitem__") and x.args:
+                skip.add(id(x.func.value))
+                try:
+                    out.add(_cev(x.args[0], env, folder, fn))
+                except _Unknown:
+                    out.add(None)
+            elif isinstance(x, ast.Name) and isinstance(x.ctx, ast.Load):
+                if x.id == dpar:
+                    out.add(None)           # the dictionary itself / an iteration over it
+                elif x.id in env and env[x.id] is not _Unknown:
+                    continue
+                elif x.id in defs and x.id not in seen and depth < 6:
+                    seen.add(x.id)
+                    for d in defs[x.id]:
+                        out |= keys_of(d, env, depth + 1, seen)
+        return out
+
+    def record(name_expr, value, node, env, live):
+        handled.add(id(node))
+        try:
+            name = _cev(name_expr, env, folder, fn) if not isinstance(name_expr, str) else name_expr
+        except _Unknown:
+            opaque.append(node)
+            return
+        if not isinstance(name, str):
+            opaque.append(node)
+            return
+        recs.append((name, node, keys_of(value, env) if value is not None else set(), live))
+
+    def is_self(e):
+        return isinstance(e, ast.Name) and e.id == selfname
+
+    def store_target(t, value, node, env, live):
+        if isinstance(t, ast.Attribute) and is_self(t.value):
+            record(t.attr, value, node, env, live)
+        elif isinstance(t, ast.Subscript) and isinstance(t.value, ast.Attribute) and t.value.attr == "__dict__" \
+                and is_self(t.value.value):
+            handled.add(id(t.value))
+            record(t.slice, value, node, env, live)
+        elif isinstance(t, (ast.Tuple, ast.List)):
+            vs = value.elts if isinstance(value, (ast.Tuple, ast.List)) and len(value.elts) == len(t.elts) else [value] * len(t.elts)
+            for tt, vv in zip(t.elts, vs):
+                store_target(tt, vv, node, env, live)
+
+    def calls_in_stmt(s, env, live):
+        for c in own_nodes(s):
+            if not isinstance(c, ast.Call):
+                continue
+            if isinstance(c.func, ast.Name) and c.func.id == "setattr" and len(c.args) == 3 and is_self(c.args[0]):
+                record(c.args[1], c.args[2], c, env, live)
+            elif isinstance(c.func, ast.Attribute) and c.func.attr == "__setattr__" and len(c.args) == 2 and is_self(c.func.value):
+                record(c.args[0], c.args[1], c, env, live)
+            elif isinstance(c.func, ast.Attribute) and c.func.attr == "__setattr__" and len(c.args) == 3 and is_self(c.args[0]):
+                record(c.args[1], c.args[2], c, env, live)
+
+    def walk(stmts, env, live):
+        for s in stmts:
+            if isinstance(s, (ast.FunctionDef, ast.AsyncFunctionDef, ast.ClassDef)):
+                continue
+            if isinstance(s, ast.If):
+                t = _tv(s.test, env, folder, fn, dpar, supplied)
+                walk(s.body, dict(env), live and t is not False)
+                walk(s.orelse, dict(env), live and t is not True)
+            elif isinstance(s, (ast.For, ast.AsyncFor)):
+                try:
+                    seq = _cev(s.iter, env, folder, fn)
+                    if isinstance(seq, dict):
+                        seq = tuple(seq)
+                    if not isinstance(seq, tuple) or len(seq) > 64:
+                        raise _Unknown("iterable")
+                except _Unknown:
+                    seq = None
+                if seq is None:
+                    e2 = dict(env)
+                    _bind(s.target, _Unknown, e2)
+                    walk(s.body, e2, live)
+                else:
+                    for item in seq:
+                        e2 = dict(env)
+                        _bind(s.target, item, e2)
+                        walk(s.body, e2, live)
+                walk(s.orelse, dict(env), live)
+            elif isinstance(s, ast.While):
+                walk(s.body, dict(env), live and _tv(s.test, env, folder, fn, dpar, supplied) is not False)
+                walk(s.orelse, dict(env), live)
+            elif isinstance(s, (ast.With, ast.AsyncWith)):
+                walk(s.body, env, live)
+            elif isinstance(s, ast.Try):
+                walk(s.body, env, live)
+                for h in s.handlers:
+                    walk(h.body, dict(env), live)
+                walk(s.orelse, env, live)
+                walk(s.finalbody, env, live)
+            else:
+                if isinstance(s, ast.Assign):
+                    for t in s.targets:
+                        store_target(t, s.value, s, env, live)
+                        if not isinstance(t, (ast.Attribute, ast.Subscript)):
+                            try:
+                                _bind(t, _cev(s.value, env, folder, fn), env)
+                            except _Unknown:
+                                _bind(t, _Unknown, env)
+                elif isinstance(s, ast.AnnAssign) and s.value is not None:
+                    store_target(s.target, s.value, s, env, live)
+                elif isinstance(s, ast.AugAssign):
+                    store_target(s.target, aug_value(s), s, env, live)
+                calls_in_stmt(s, env, live)
+    walk(fn.body, {}, True)
+    # dynamic stores the walk above did not account for
+    for x in func_own_nodes(fn):
+        if id(x) in handled:
+            continue
+        if isinstance(x, ast.Call) and ((isinstance(x.func, ast.Name) and x.func.id == "setattr" and x.args and is_self(x.args[0]))
+                                        or (isinstance(x.func, ast.Attribute) and x.func.attr == "__setattr__")):
+            opaque.append(x)
+        elif isinstance(x, ast.Attribute) and x.attr == "__dict__" and is_self(x.value):
+            opaque.append(x)
+        elif isinstance(x, ast.Call) and isinstance(x.func, ast.Name) and x.func.id == "vars" and x.args and is_self(x.args[0]):
+            opaque.append(x)
+    return recs, opaque
 
 
 def _descendants(fn):
